@@ -13,25 +13,25 @@ theorem not_handover_of_pos {r : Rule} (hpos : r.pos ≠ []) : ¬ Handover r := 
   | cons a as => rw [hq] at h4; simp at h4
 
 theorem dly_pos_sound (r : Rule) (p : Inst) (n nti : Nat) (l : List Inst) (hr : WfRule r) (hp : WfInst p)
-    (hs : SeedOk r p) (hy : 1901 ≤ p.y) (hf : r.freq = 4) (hpos : r.pos ≠ []) (hcap : capNti r n = some nti)
+    (hy : 1901 ≤ p.y) (hf : r.freq = 4) (hpos : r.pos ≠ []) (hcap : capNti r n = some nti)
     (h : fillDly r p n = some l) : ∀ x ∈ l, SetposOk r p x := by
   rw [fillDly_nh r p n nti hr hp hcap (not_handover_of_pos hpos)] at h
   obtain ⟨l', hl, rfl⟩ := Option.map_eq_some_iff.1 h
   obtain ⟨hc0, hw0⟩ := dly_start r p nti hp hy
   rw [hw0] at hl
-  have he : EnumOk (dctx r p nti).e := makeEnum_ok r p hr hp hs.timeOk
+  have he : EnumOk (dctx r p nti).e := makeEnum_ok r p hr hp
   intro x hx
   refine dlyLoop_sound (dctx r p nti) hr hp he (SetposOk r p) ?_ _ 0 p.y p.m p.d [] l' hc0
     (fun z hz => by cases hz) hl x (List.mem_reverse.1 hx)
   intro j y m d hc hy2 hsk t ht hskip _ _
-  exact (dlySkip_iff r p nti hr hp hs hy hf hpos j y m d hc hy2 hsk t ht).1 hskip
+  exact (dlySkip_iff r p nti hr hp hy hf hpos j y m d hc hy2 hsk t ht).1 hskip
 
 theorem dly_pos_complete (r : Rule) (p : Inst) (n nti : Nat) (l : List Inst) (hr : WfRule r) (hp : WfInst p)
-    (hs : SeedOk r p) (hy : 1901 ≤ p.y) (hf : r.freq = 4) (hpos : r.pos ≠ []) (hcap : capNti r n = some nti)
+    (hy : 1901 ≤ p.y) (hf : r.freq = 4) (hpos : r.pos ≠ []) (hcap : capNti r n = some nti)
     (h : fillDly r p n = some l) (x : Inst) (hx : DailyInst r p x) (hsp : SetposOk r p x) (hge : absOf p ≤ absOf x)
     (hle : ltP r.untl x = false) (hxy : x.y ≤ 2099) :
     x ∈ l ∨ (l.length = nti ∧ ∀ z ∈ l, ltP z x = true) := by
-  refine dly_nh_complete' r p n nti l hr hp hs hy hcap (not_handover_of_pos hpos) h x hx hge hle hxy ?_
+  refine dly_nh_complete' r p n nti l hr hp hy hcap (not_handover_of_pos hpos) h x hx hge hle hxy ?_
   intro k ix hc hsk hix
   have hxeq : mkz x.y x.m x.d p.ms (ix, x.H, x.M, x.S) = x := by
     have hms := hx.1.2.2.2.2.1
@@ -40,7 +40,7 @@ theorem dly_pos_complete (r : Rule) (p : Inst) (n nti : Nat) (l : List Inst) (hr
     simp only at hms
     subst hms
     rfl
-  have := (dlySkip_iff r p nti hr hp hs hy hf hpos k x.y x.m x.d hc hxy hsk (ix, x.H, x.M, x.S) hix).2
+  have := (dlySkip_iff r p nti hr hp hy hf hpos k x.y x.m x.d hc hxy hsk (ix, x.H, x.M, x.S) hix).2
   rw [hxeq] at this
   exact this hsp
 
